@@ -274,14 +274,25 @@ func runA4(sc *SyncScenario, lay Layout, res *SessionResult) {
 		}()
 		_, o.err = cmd.Run(context.Background())
 	}()
+	// These sessions take milliseconds. 45 s would do; on a machine that is
+	// thrashing a slow session is given a second, longer chance, because a
+	// session that is merely slow finishes and one that is deadlocked does not.
 	limit := 45 * time.Second
-	select {
-	case o := <-ch:
+	finished := func(o out) {
 		res.Outcome = kernel.Finished
 		res.ClientDone, res.ClientErr, res.Panic = true, o.err, o.panic
+	}
+	select {
+	case o := <-ch:
+		finished(o)
 	case <-time.After(limit):
-		res.Outcome = kernel.Deadlock
-		res.Pending = fmt.Sprintf("local copy (client and in-process server over io.Pipe) did not return within %v of wall-clock time", limit)
+		select {
+		case o := <-ch:
+			finished(o)
+		case <-time.After(90 * time.Second):
+			res.Outcome = kernel.Deadlock
+			res.Pending = fmt.Sprintf("local copy (client and in-process server over io.Pipe) did not return within %v of wall-clock time", limit+90*time.Second)
+		}
 	}
 	res.ClientStderr, res.ClientStdout = cErr.String(), cOut.String()
 }
